@@ -241,7 +241,7 @@ func (g *gen) genOpt(pi *progInfo, n *nodeInfo, used map[string]bool, env *[]Env
 		}
 	}
 	if g.p(0.1) && (k == KStr || k == KStrOpt || k == KStrs || k == KInt) {
-		oi.valid = [][]string{{"a", "b"}, {"1", "2", "3"}, {"x=", "y"}, {"é"}}[g.r.Intn(4)]
+		oi.valid = [][]string{{"a", "b"}, {"1", "2", "3"}, {"x=", "y"}, {"é"}, {"val", "staging", "va"}, {"a", "s", "al", "a"}}[g.r.Intn(6)]
 		mods = append(mods, Mod{M: "valid", Strs: oi.valid})
 	}
 	if g.p(g.f.Env) {
@@ -255,7 +255,9 @@ func (g *gen) genOpt(pi *progInfo, n *nodeInfo, used map[string]bool, env *[]Env
 		}
 		if !have && g.p(0.8) {
 			vals := []string{"true", "false", "TRUE", "False", "tRuE", "yes", "1", "", "12", "-7", "1.5", "abc", "falſe", "12x", "0x10", "1e400", " true", "é",
-				" ", "\t", " x ", "010", "0755", "1_000", "0b101", "+7", "-0", "false\n"}
+				" ", "\t", " x ", "010", "0755", "1_000", "0b101", "+7", "-0", "false\n",
+				// a value that contains the separator of the environment block
+				"a=b", "k=v=w", "=", "12=3", "True=1", "x=", "=true", "1.5=2"}
 			*env = append(*env, EnvKV{K: en, V: g.pick(vals)})
 		}
 	}
@@ -263,7 +265,9 @@ func (g *gen) genOpt(pi *progInfo, n *nodeInfo, used map[string]bool, env *[]Env
 		mods = append(mods, Mod{M: "arg", Strs: []string{[]string{"thing", "", "path", "é"}[g.r.Intn(4)]}})
 	}
 	if g.p(g.f.Suggest) {
-		mods = append(mods, Mod{M: "sugg", Strs: [][]string{{"s1", "s2"}, {"alpha", "alp", "beta"}, {"k=", "k=v"}, {"x"}, {"os=", "arch="}, {"k="}}[g.r.Intn(6)]})
+		mods = append(mods, Mod{M: "sugg", Strs: [][]string{{"s1", "s2"}, {"alpha", "alp", "beta"}, {"k=", "k=v"}, {"x"}, {"os=", "arch="}, {"k="},
+			// declared order is not sorted order, a non-match between two matches, a value given twice
+			{"alpha", "beta", "alp"}, {"s2", "x", "s1", "s2"}, {"val0", "k=v", "val1", "a"}}[g.r.Intn(9)]})
 	}
 	if g.p(g.f.Suggest / 2) {
 		mods = append(mods, Mod{M: "sfn", N: g.r.Intn(3)})
@@ -356,7 +360,9 @@ func (g *gen) genProgram(c *Case) *progInfo {
 		script = append(script, DefOp{Op: "fn", H: 0, N: 0})
 	}
 	if g.p(0.15) {
-		script = append(script, DefOp{Op: "argcomp", H: 0, L: [][]string{{"sugg1", "sugg2"}, {"list", "lisp"}, {"x"}}[g.r.Intn(3)]})
+		script = append(script, DefOp{Op: "argcomp", H: 0, L: [][]string{{"sugg1", "sugg2"}, {"list", "lisp"}, {"x"},
+			// match, non-match, match in declared order; a suggestion that is also a command name or comes twice
+			{"sugg2", "list", "sugg1"}, {"list", "cmd", "lisp", "run"}, {"show", "help", "show"}, {"larg0", "list", "larg1"}}[g.r.Intn(7)]})
 	}
 	if g.p(0.08) {
 		script = append(script, DefOp{Op: "argfn", H: 0, N: g.r.Intn(3), InitIS: g.moreFns()})
@@ -460,7 +466,7 @@ func (g *gen) genProgram(c *Case) *progInfo {
 					script = append(script, DefOp{Op: "self", H: h, Name: []string{"", "", name, "renamed", "help"}[g.r.Intn(5)], Desc: []string{"", "described later", "50%!"}[g.r.Intn(3)]})
 				}
 				if g.p(0.1) {
-					script = append(script, DefOp{Op: "argcomp", H: h, L: []string{"carg1", "carg2"}})
+					script = append(script, DefOp{Op: "argcomp", H: h, L: [][]string{{"carg1", "carg2"}, {"carg2", "list", "carg1"}, {"sub", "carg1", "sub", "show"}}[g.r.Intn(3)]})
 				}
 				if g.p(0.05) {
 					script = append(script, DefOp{Op: "argfn", H: h, N: g.r.Intn(3), InitIS: g.moreFns()})
@@ -852,7 +858,7 @@ func (g *gen) genCompLine(pi *progInfo) string {
 	case 5:
 		last = prefixOf(g, g.pick(cmdPool))
 	case 6:
-		last = g.pick([]string{"h", "he", "help", "s", "sugg", "c", "l"})
+		last = g.pick([]string{"h", "he", "help", "s", "sugg", "c", "l", "carg", "li", "lar", "sh", "su"})
 	case 7:
 		last = "-" + g.pick(namePool)
 	}
